@@ -126,8 +126,12 @@ def run_template(host, tokens, with_snapshot):
     args = {'log_msg': template}
     if not with_snapshot:
         args['snapshot'] = 'no_collect'
+    # a collecting tracepoint also WATCHES the expression of its first field (and one more): the log fields are recorded
+    # on the snapshot one by one all the same
+    fields_ = [t for t in tokens if t.startswith('f_')]
+    watched = ([EXPR[fields_[0]]] if fields_ else []) + ['a + 1'] if with_snapshot else []
     try:
-        rg.install([{'id': 'tp-log', 'path': base, 'line': marks['greet'], 'args': args}])
+        rg.install([{'id': 'tp-log', 'path': base, 'line': marks['greet'], 'args': args, 'watches': watched}])
         res = rg.run(mod.greet, 9, only_file=path)
         if res != ('ok', 9) or rg.escaped:
             return ['host changed / handler raised: %r %r' % (res, rg.escaped)]
@@ -153,6 +157,9 @@ def run_template(host, tokens, with_snapshot):
                 problems.append('snapshot log message %r differs from the logged %r' % (s.log_msg, msg))
             if s.attributes.get('context') != ctx_id:
                 problems.append('logger ctx_id %r is not the trigger context id %r' % (ctx_id, s.attributes.get('context')))
+            if [w.expression for w in s.watches if w.source == 'WATCH'] != watched:
+                problems.append('WATCH results %s, the tracepoint watches %s' % (
+                    [w.expression for w in s.watches if w.source == 'WATCH'], watched))
             ws = [w for w in s.watches if w.source == 'LOG']
             if [w.expression for w in ws] != [EXPR[f] for f in fields]:
                 problems.append('LOG watches %s, fields %s' % ([w.expression for w in ws], [EXPR[f] for f in fields]))
